@@ -42,6 +42,8 @@ pub struct StrategyPlanner {
     checksum: bool,
     /// Integrity verifier for checksum computation
     verifier: Option<IntegrityVerifier>,
+    /// Symlinks are followed (their targets copied as regular files) instead of preserved
+    follow_symlinks: bool,
 }
 
 impl StrategyPlanner {
@@ -52,6 +54,7 @@ impl StrategyPlanner {
             size_only: false,
             checksum: false,
             verifier: None,
+            follow_symlinks: false,
         }
     }
 
@@ -71,7 +74,15 @@ impl StrategyPlanner {
             size_only,
             checksum,
             verifier,
+            follow_symlinks: false,
         }
+    }
+
+    /// Tell the planner that symlinks are followed (--links follow): an identical link already
+    /// present in the destination is then not up to date, it has to be replaced by a copy
+    pub fn follow_symlinks(mut self, follow: bool) -> Self {
+        self.follow_symlinks = follow;
+        self
     }
 
     /// Determine sync action for a source file (async version using transport)
@@ -83,6 +94,29 @@ impl StrategyPlanner {
         checksum_db: Option<&ChecksumDatabase>,
     ) -> Result<SyncTask> {
         let dest_path = dest_root.join(&source.relative_path);
+
+        // Symlink entries are compared as links: never stat (or later write) through whatever
+        // the destination path already holds. Only done when the destination is on the local
+        // file system (remote destinations keep the transport-based logic below).
+        if source.is_symlink {
+            if let Ok(dest_meta) = std::fs::symlink_metadata(&dest_path) {
+                let action = if !self.follow_symlinks
+                    && dest_meta.file_type().is_symlink()
+                    && std::fs::read_link(&dest_path).ok() == source.symlink_target
+                {
+                    SyncAction::Skip
+                } else {
+                    SyncAction::Update
+                };
+                return Ok(SyncTask {
+                    source: Some(source.clone()),
+                    dest_path,
+                    action,
+                    source_checksum: None,
+                    dest_checksum: None,
+                });
+            }
+        }
 
         let (action, source_checksum, dest_checksum) = if source.is_dir {
             // For directories, just check existence (no metadata needed)
